@@ -275,7 +275,9 @@ func (dec *Decoder) decodeMB(tokenBR *bitio.BoolReader) error {
 	}
 
 	if !skip {
-		dec.parseResiduals(mb, left, block, tokenBR)
+		// As in libwebp/RFC 6386, a coded macroblock whose residuals are all
+		// zero is treated like a skipped one by the loop filter.
+		skip = dec.parseResiduals(mb, left, block, tokenBR)
 	} else {
 		left.Nz = 0
 		mb.Nz = 0
@@ -310,7 +312,7 @@ func b2i(b bool) int {
 }
 
 // parseResiduals decodes all residual coefficients for one macroblock.
-func (dec *Decoder) parseResiduals(mb, leftMB *MB, block *MBData, tokenBR *bitio.BoolReader) {
+func (dec *Decoder) parseResiduals(mb, leftMB *MB, block *MBData, tokenBR *bitio.BoolReader) bool {
 	bands := &dec.proba.BandsPtr
 	q := &dec.dqm[block.Segment&3]
 	dst := block.Coeffs[:]
@@ -427,4 +429,5 @@ func (dec *Decoder) parseResiduals(mb, leftMB *MB, block *MBData, tokenBR *bitio
 	if nonZeroUV&0xaaaa == 0 {
 		block.Dither = uint8(q.Dither)
 	}
+	return nonZeroY|nonZeroUV == 0 // true if there is no non-zero coefficient at all
 }
